@@ -298,17 +298,8 @@ impl Axecutor {
     /// o16 83 /2 ib
     fn instr_adc_rm16_imm8(&mut self, i: Instruction) -> Result<(), AxError> {
         debug_assert_eq!(i.code(), Adc_rm16_imm8);
-
-        let flags = self.state.rflags;
-        calculate_rm_imm![u16f; u8; self; i; |d:u16, s:u8| {
-            let result = (d as u32).wrapping_add(s as u32).wrapping_add(u32::from(flags & FLAG_CF != 0));
-
-            (
-                result as u16,
-                if (result & 0x8000 != (d as u32) & 0x8000) && (result & 0x8000 != (s as u32) & 0x8000) { FLAG_OF } else { 0 } |
-                if result & 0x10000 != 0 { FLAG_CF } else { 0 }
-            )
-        }; (set: FLAG_SF | FLAG_ZF | FLAG_PF; clear: FLAG_OF | FLAG_CF)]
+        // The immediate is sign-extended to the operand size (iced hands it over already extended)
+        self.instr_adc_rm16_imm16(i)
     }
 
     /// ADC r/m32, imm8
@@ -316,17 +307,8 @@ impl Axecutor {
     /// o32 83 /2 ib
     fn instr_adc_rm32_imm8(&mut self, i: Instruction) -> Result<(), AxError> {
         debug_assert_eq!(i.code(), Adc_rm32_imm8);
-
-        let flags = self.state.rflags;
-        calculate_rm_imm![u32f; u8; self; i; |d:u32, s:u8| {
-            let result = (d as u64).wrapping_add(s as u64).wrapping_add(u64::from(flags & FLAG_CF != 0));
-
-            (
-                result as u32,
-                if (result & 0x80000000 != (d as u64) & 0x80000000) && (result & 0x80000000 != (s as u64) & 0x80000000) { FLAG_OF } else { 0 } |
-                if result & 0x100000000 != 0 { FLAG_CF } else { 0 }
-            )
-        }; (set: FLAG_SF | FLAG_ZF | FLAG_PF; clear: FLAG_OF | FLAG_CF)]
+        // The immediate is sign-extended to the operand size (iced hands it over already extended)
+        self.instr_adc_rm32_imm32(i)
     }
 
     /// ADC r/m64, imm8
@@ -334,17 +316,8 @@ impl Axecutor {
     /// o64 83 /2 ib
     fn instr_adc_rm64_imm8(&mut self, i: Instruction) -> Result<(), AxError> {
         debug_assert_eq!(i.code(), Adc_rm64_imm8);
-
-        let flags = self.state.rflags;
-        calculate_rm_imm![u64f; u8; self; i; |d:u64, s:u8| {
-            let result = (d as u128).wrapping_add(s as u128).wrapping_add(u128::from(flags & FLAG_CF != 0));
-
-            (
-                result as u64,
-                if (result & 0x8000000000000000 != (d as u128) & 0x8000000000000000) && (result & 0x8000000000000000 != (s as u128) & 0x8000000000000000) { FLAG_OF } else { 0 } |
-                if result & 0x10000000000000000u128 != 0 { FLAG_CF } else { 0 }
-            )
-        }; (set: FLAG_SF | FLAG_ZF | FLAG_PF; clear: FLAG_OF | FLAG_CF)]
+        // The immediate is sign-extended to the operand size (iced hands it over already extended)
+        self.instr_adc_rm64_imm32(i)
     }
 }
 
